@@ -43,7 +43,7 @@ def obsVal : Val → Obs
 
 /-- a column value is well formed for its unit (and its position `pos`, the argument of the sealant test) -/
 def ValOK (ext : Ext) (unit : Str) (pos : Nat) (v : Val) : Prop :=
-  if unit = uText then ∃ s, v = .text s ∧ (pos = 0 → s ≠ [])
+  if unit = uText then ∃ s, v = .text s ∧ (pos = 0 → s ≠ []) ∧ s.getLast? ≠ some '\x00'
   else if unit = uOnoff then ∃ b, v = .bool b
   else if unit = uDatetime then ∃ t, v = .dt t ∧ (t = NaT ∨ DtOK ext t)
   else (∃ t, v = .num t ∧ (t = NaN ∨ NumOK ext t)) ∨ (∃ i, v = .int i ∧ IntOK ext i)
@@ -113,9 +113,9 @@ theorem cellText_int (naRep : Str) (pos : Nat) (unit : Str) (i : Int) (h1 : unit
 /-! ### parsing the rendered texts of a column gives back its values -/
 
 theorem parseWith_all_some {α : Type} (cellFn : Cell → Option α) (rep : FixCfg → α) (vt : String)
-    (cells : List Cell) (f : Fixer) (vals : List α)
+    (txt : Cell → Str) (cells : List Cell) (f : Fixer) (vals : List α)
     (h : cells.map cellFn = vals.map some) :
-    parseWith cellFn rep vt cells f = (vals, f) := by
+    parseWith cellFn rep vt txt cells f = (vals, f) := by
   induction cells generalizing vals with
   | nil => cases vals <;> simp_all [parseWith]
   | cons c cs ih =>
@@ -208,9 +208,10 @@ theorem parse_rendered (ext : Ext) (naRep : Str) (hna : NaRepOK naRep) (unit : S
     intro p hp
     have := h p hp
     simp only [ValOK, if_true] at this
-    obtain ⟨s, hs, hpos⟩ := this
-    simp only [Function.comp, hs, Cell.pyStr]
-    exact cellText_text naRep p.2 s hpos
+    obtain ⟨s, hs, hpos, hnul⟩ := this
+    simp only [Function.comp, hs, textCell, Cell.pyStr]
+    rw [cellText_text naRep p.2 s hpos]
+    exact C02.rstripNul_id s hnul
   · rw [if_neg h1, if_neg h1]
     by_cases h2 : unit = uOnoff
     · subst h2
@@ -226,7 +227,7 @@ theorem parse_rendered (ext : Ext) (naRep : Str) (hna : NaRepOK naRep) (unit : S
         simp only [Function.comp, hb, cellText_bool]
         exact onoff_rendered b
       unfold parseOnoff
-      rw [parseWith_all_some onoffCell _ _ _ f _ hv]
+      rw [parseWith_all_some onoffCell _ _ _ _ f _ hv]
     · rw [if_neg h2, if_neg h2]
       by_cases h3 : unit = uDatetime
       · subst h3
@@ -266,6 +267,6 @@ theorem parse_rendered (ext : Ext) (naRep : Str) (hna : NaRepOK naRep) (unit : S
             rw [cellText_int naRep p.2 unit i h1 h2 h3]
             exact floatCell_int ext i hok
         unfold parseFloat
-        rw [parseWith_all_some (floatCell ext) _ _ _ f _ hv]
+        rw [parseWith_all_some (floatCell ext) _ _ _ _ f _ hv]
 
 end Pdt.Write
